@@ -117,7 +117,11 @@ where
                     }),
                     Ok(Ok(Response {
                         result: Err(err), ..
-                    })) => Err(err.into()),
+                    })) => {
+                        // The child exits after reporting a panic, so it has to be replaced.
+                        break_out = true;
+                        Err(err.into())
+                    }
                     Ok(Err(Error::ReadFailed(err))) if err.kind() == ErrorKind::UnexpectedEof => {
                         break_out = true;
                         Err(Error::Crashed)
